@@ -8,5 +8,6 @@ CONSTANTS
   TD <- ToDec
   NT <- NumText
   NTL <- NumTextLoc
+  CV <- Convert
 INVARIANTS LawSwap
 CHECK_DEADLOCK FALSE
